@@ -624,6 +624,14 @@ void node_use(uint32_t vid, bool moved_from)
     log_event(K_USE, vid, moved_from);
 }
 
+void node_read(uint32_t vid)
+{
+    RtGuard g;
+    TaskState* t = tls_task; OpRec* o = ledger_op();
+    if (!t || !o) return;
+    if (vid < t->vals.size() && t->vals[vid].destroyed) { ++o->use_dead; log_event(K_LEDGER_BAD, 7, vid); }
+}
+
 void trivial_copy()
 {
     RtGuard g;
